@@ -198,9 +198,18 @@ func noopEncoder(e *encodeState, _ ugo.Object, _ encOpts) {
 }
 
 func optionsEncoder(e *encodeState, v ugo.Object, opts encOpts) {
+	if e.ptrLevel++; e.ptrLevel > startDetectingCyclesAfter {
+		// Value may hold the options object itself or a container of it.
+		if _, ok := e.ptrSeen[v]; ok {
+			e.error(&UnsupportedValueError{v, fmt.Sprintf("encountered a cycle via %s", v.TypeName())})
+		}
+		e.ptrSeen[v] = struct{}{}
+		defer delete(e.ptrSeen, v)
+	}
 	opts.quoted = v.(*EncoderOptions).Quote
 	opts.escapeHTML = v.(*EncoderOptions).EscapeHTML
 	e.encode(v.(*EncoderOptions).Value, opts)
+	e.ptrLevel--
 }
 
 func boolEncoder(e *encodeState, v ugo.Object, opts encOpts) {
